@@ -137,6 +137,8 @@ def run_tree_case(ctx):
             lib_e = ctx.lib(start.expectation, tm.ttno, what="TTNS.expectation")
             ctx.close(float(np.real(lib_e)), eh * n2 ** 2, 1e-8, "tree|expectation-of-optimised-state", scale=max(1.0, specr))
     else:
+        # "the returned states are normalised" - also after a truncating last sweep
         ctx.cls("tree-norm-after-truncating-sweep:" + ("1" if abs(n2 - 1.0) <= 1e-8 else "<1"))
+        ctx.check(abs(n2 - 1.0) <= 1e-8, "tree|optimize_ttns|returned-state-not-normalised|truncating-schedule", norm=n2, procedure=proc)
     ctx.nontrivial({"tree": trees.tree_shape_key(tree), "sector": qntot.tolist(), "proc": proc, "algo": algo,
                     "h": env.dhash(np.round(Hs, 9))})
